@@ -437,6 +437,7 @@ int[] ga = [1, 2, 0];
 const int[] gc = [2, 0, 1];
 byte[] gba = [1, 0, 2];
 bool[] gfa = [true, false, true, true, false, false, true, false, true, true];
+const bool[] gcf = [true, false, true];
 const int K = 2;
 const byte KB = 1;
 const string KS = "klm";
@@ -461,7 +462,7 @@ US_INT_SITES = [
     ('store-index-bool', 'fa[{e}] = x > 0; sleep((fa[0] is int) + (fa[1] is int) * 2 + (fa[2] is int) * 4);'),
     ('store-index-global', 'ga[{e}] = n; sleep(ga[0] + ga[1] * 3 + ga[2] * 9);'),
     ('compound-index', 'a[{e}] += n; sleep(a[0] + a[1] * 3 + a[2] * 9); ba[{e}] -= 1; write(ba);'),
-    ('load-index', "sleep(a[{e}]); write(ba[{e}]); sleep(fa[{e}] is int); write(gs[{e}]); sleep(gc[{e}]);"),
+    ('load-index', "sleep(a[{e}]); write(ba[{e}]); sleep(fa[{e}] is int); write(gs[{e}]); sleep(gc[{e}]); sleep(gcf[{e}] is int); sleep(gfa[{e}] is int);"),
     ('store-value', 'a[1] = {e}; sleep(a[1]); g = {e}; sleep(g); n = {e}; sleep(n);'),
     ('compound-value', 'a[1] += {e}; sleep(a[1]); g -= {e}; sleep(g); n *= {e}; sleep(n);'),
     ('vla-length', "int v[({e}) % 4]; write('k'); sleep(v.length); bool w[({e}) % 3 + 7]; w[6] = true; sleep(w.length); sleep(w[6] is int); byte u[(({e}) % 2 + 1) * 3]; u[2] = 'u'; write(u[2]);"),
